@@ -1,1 +1,36 @@
-fn main(){}
+use vcore::budgetmodel as bm;
+use vcore::val::Val;
+
+fn run(doc: &str, b: serde_saphyr::Budget) {
+    let (o, got) = bm::options_with(b);
+    let r = serde_saphyr::from_str_with_options::<Val>(doc, o);
+    let m = bm::model(doc);
+    println!("doc={doc:?}\n  -> {:?}\n  report={:?}\n  model={:?}", r.as_ref().map(|v| v.to_string()).map_err(|e| format!("{:?}", e.without_snippet())), got.borrow().last().map(bm::Counts::of_report), m.map(|m| m.all));
+}
+
+fn main() {
+    let u = bm::unlimited_budget();
+    run("a: 1\n", u.clone());
+    let mut b = u.clone();
+    b.max_events = 7;
+    run("a: 1\n", b.clone());
+    b.max_events = 5;
+    run("a: 1\n", b.clone());
+    run("x: &x 1\nm: &m {k: 2}\nt: {a: *x, <<: *m}\n", u.clone());
+    run("x: &x 1\nm: &m {k: 2}\nt: {<<: *m, a: *x}\n", u.clone());
+    run("x: &x 1\nt: {a: *x, b: <<}\n", u.clone());
+    let mut b = u.clone();
+    b.enforce_alias_anchor_ratio = true;
+    b.alias_anchor_min_aliases = 0;
+    b.alias_anchor_ratio_multiplier = 10;
+    run("a: 1\n", b.clone());
+    // per doc
+    let mut b = u.clone();
+    b.max_anchors = 1;
+    let (o, _got) = bm::options_with(b);
+    let txt = "&a 1\n---\n&a 2\n---\n&b 3\n";
+    let mut rd = txt.as_bytes();
+    for it in serde_saphyr::read_with_options::<_, Val>(&mut rd, o) {
+        println!("item {:?}", it.map(|v| v.to_string()).map_err(|e| format!("{:?}", e.without_snippet())));
+    }
+}
